@@ -25,8 +25,8 @@ def attribute_part(out):
     tier = vc.tier()
     sc = vc.scratch(PROP + 'm')
     R = mcheck.MRun(vc.REPO, sc, 'codegen', max_depth=60)
-    q = 1 if tier == 'quick' else 2
-    cands = K.k_variable_field(R, q) + K.k_input_member(R, 'struct', q) + K.k_input_member(R, 'oneof', q)
+    q = 2 if tier == 'quick' else 3
+    cands = R.run_parallel([(K.k_variable_field, (q,)), (K.k_input_member, ('struct', q)), (K.k_input_member, ('oneof', q))])
     cands = [c for c in cands if c['prop'] in ('C04', 'C13', 'C12')]
     C = consumer.Consumer(sc)
     seen = set()
